@@ -100,6 +100,16 @@ func (t *T) Sel(c chan int) {
 	t.mu.Unlock()
 }
 
+type S struct {
+	mu sync.Mutex
+	xs []Inner
+}
+
+func (s *S) Elem(i int) int  { s.mu.Lock(); defer s.mu.Unlock(); p := &s.xs[i]; p.v++; return p.v }
+func (s *S) ElemLate(i int)  { s.mu.Lock(); p := &s.xs[i]; s.mu.Unlock(); p.v = 1 }
+func (s *S) ElemLeak(i int)  { s.mu.Lock(); p := &s.xs[i]; keepI = p; s.mu.Unlock() }
+
+var keepI *Inner
 var keep func()
 
 func sink(f func()) { keep = f }
@@ -147,6 +157,10 @@ var expected = []expect{
 	{"T.Escapes$1", "c", "KWrite", "", false},
 	{"T.Sel", "a", "KWrite", "T.mu/W", false},
 	{"T.Sel", "b", "KWrite", "T.mu/W", false},
+	{"S.Elem", "xs", "KWrite", "S.mu/W", false},
+	{"S.Elem", "xs", "KRead", "S.mu/W", false},
+	{"S.ElemLate", "xs", "KWrite", "", false},
+	{"S.ElemLeak", "xs", "KUnknown", "S.mu/W", false},
 }
 
 func selfTest() int {
